@@ -191,7 +191,7 @@ register(
         "C18",
         CR.gen_C18,
         CR.run_C18,
-        350,
+        600,
         10000,
         "fault_enumeration",
         "per sampled write history: EVERY cut of its program-ordered write log is reconstructed (block granularity for all events; byte granularity for appends: first byte, last-but-one byte, seeded interior offsets) and reopened by the real constructor, then swept with every read-only traversal; a seeded sample of cuts is also executed as in-line crashes (exception out of SimFile.write) and must leave the same bytes; non-trivial when the log has >= 20 events and >= 10 crash states were accepted and swept; distinct = distinct write-log digests",
